@@ -8,14 +8,14 @@ open Chewing Chewing.C04 Chewing.C05 Chewing.C06
 variable {D L : Type} {env : Env D L} {G : D → Prop}
 
 /-- what this package's theorem covers: everything except, **while a candidate list is open**,
-    (1) `jump_to_*_selection_point`, and (2) when the list is a *symbol table* (`SymbolSelector`, opened with
+    (1) `jump_to_*_selection_point` on a phrase list, and (2) when the list is a *symbol table* (`SymbolSelector`, opened with
     `` ` `` / Ctrl+0 / Ctrl+1 or on a symbol without special variants): `select(n)` and the keys whose arm
     reads or changes the list (`selHardKey`: Down, Space, j, k, Left, Right, PageUp, PageDown, digits —
     without Ctrl/Shift) -/
 def Covered (e : Editor D L) : Op L → Prop
   | .key ev => ∀ s, e.state = .selecting s → selHardKey ev = false ∨ selNoTable s
   | .select _ => ∀ s, e.state = .selecting s → selNoTable s
-  | .jump _ => ∀ s, e.state ≠ .selecting s
+  | .jump _ => ∀ s p, e.state = .selecting s → s.sel ≠ .phrase p
   | _ => True
 
 theorem select_tail_ok (hE : EnvOK env G) {sh : Shared D L} {st : St} (h : ShInv env G sh) (hs : StInv env sh st) :
@@ -119,7 +119,10 @@ theorem apply_ok (hE : EnvOK env G) {e : Editor D L} (hi : EditorInv env G e) (o
   | jump w =>
     simp only [Editor.apply, Editor.jump]
     split
-    · next s hs => exact absurd hs (hc s)
+    · next s hs =>
+      split
+      · next p hp => exact absurd hp (hc s p hs)
+      · exact .ok hi
     · exact .ok hi
 
 end Chewing.C01
